@@ -62,6 +62,8 @@ impl FlushWorker {
             rx.recv().await
         {
             let inflight_guard = self.inflight_segments.guard(format!("{:05}", segment_id));
+            #[cfg(feature = "verif-hooks")]
+            crate::verif_hooks::point("fl.dequeued", segment_id);
             let segment_dir = SegmentId::from(segment_id as u32).join_dir(&self.base_dir);
             let shard_id = self.shard_id;
             let flush_coord_lock = Arc::clone(&self.flush_coordination_lock);
@@ -90,6 +92,8 @@ impl FlushWorker {
                         .register_flush(segment_id, Arc::clone(&passive_memtable))
                         .await;
                 }
+                #[cfg(feature = "verif-hooks")]
+                crate::verif_hooks::point("fl.registered", segment_id);
 
                 let flusher = Flusher::new(
                     memtable,
@@ -99,6 +103,8 @@ impl FlushWorker {
                     Arc::clone(&flush_coord_lock),
                 );
                 let flush_result = flusher.flush().await;
+                #[cfg(feature = "verif-hooks")]
+                crate::verif_hooks::point("fl.flushed", segment_id);
 
                 match &flush_result {
                     Err(e) => {
@@ -137,6 +143,8 @@ impl FlushWorker {
                         if track_lifecycle {
                             lifecycle.mark_written(segment_id).await;
                         }
+                        #[cfg(feature = "verif-hooks")]
+                        crate::verif_hooks::point("fl.marked_written", segment_id);
 
                         // Verify segment is queryable before clearing passive buffer
                         let verifier = SegmentVerifier::new(base_dir, shard_id);
@@ -147,6 +155,8 @@ impl FlushWorker {
                                 SEGMENT_VERIFY_RETRY_DELAY_MS,
                             )
                             .await;
+                        #[cfg(feature = "verif-hooks")]
+                        crate::verif_hooks::point("fl.verified", segment_id);
 
                         if !is_queryable {
                             warn!(
@@ -176,6 +186,8 @@ impl FlushWorker {
                             }
                         }
 
+                        #[cfg(feature = "verif-hooks")]
+                        crate::verif_hooks::point("fl.published", segment_id);
                         // Mark as verified and clear passive buffer
                         if track_lifecycle {
                             lifecycle.mark_verified(segment_id).await;
@@ -202,6 +214,8 @@ impl FlushWorker {
                             }
                         }
 
+                        #[cfg(feature = "verif-hooks")]
+                        crate::verif_hooks::point("fl.passive_cleared", segment_id);
                         // Note: Passive buffer is now empty and will be filtered out by
                         // PassiveBufferSet::non_empty() in subsequent queries
 
@@ -216,6 +230,8 @@ impl FlushWorker {
                         }
                         let cleaner = WalCleaner::new(shard_id);
                         cleaner.cleanup_up_to(segment_id + 1);
+                        #[cfg(feature = "verif-hooks")]
+                        crate::verif_hooks::point("fl.wal_cleaned", segment_id);
                     }
                 }
 
@@ -241,7 +257,11 @@ impl FlushWorker {
                 }
             };
 
+            #[cfg(feature = "verif-hooks")]
+            crate::verif_hooks::point("fl.task_done", segment_id);
             self.flush_progress.mark_completed(flush_id);
+            #[cfg(feature = "verif-hooks")]
+            crate::verif_hooks::point("fl.completed", segment_id);
 
             // Always send completion signal, even on error/panic
             if let Some(completion) = completion {
